@@ -276,6 +276,14 @@ def uniq_prop_check(ctx, c, outs):
             if not same_elem(cls, opts, rows[k], flags[k], out[inv[j]], oflags[inv[j]], MERGE_TOL):
                 return (f"inv_reconstructs: input element {int(k)} = {rows[k].tolist()} but returned[inv[{j}]={int(inv[j])}] = "
                         f"{out[inv[j]].tolist()} (inv = {inv.tolist()})")
+    # 6. a duplicate-free cover of a duplicate-free set is that set: unique() of the result returns it unchanged, in order
+    if c.get("separated") and len(out):
+        u2 = unpack(call_unique(u, c), c)[0]
+        o2 = u2.data.reshape(-1, rows.shape[1])
+        f2 = u2.improper.reshape(-1) if cls in ROT else np.zeros(len(o2), bool)
+        if len(o2) != len(out) or not all(same_elem(cls, opts, out[i], oflags[i], o2[i], f2[i], MERGE_TOL) for i in range(len(out))):
+            return (f"idempotent: unique() of the returned elements gives {o2.tolist()} (flags {f2.tolist()}), not the returned "
+                    f"elements {out.tolist()} themselves")
     return None
 
 
